@@ -29,6 +29,7 @@ type World struct {
 	inlineLimit int
 	contractFiles []string
 	loadSeconds float64
+	allFuncs    map[*ssa.Function]bool
 }
 
 func (W *World) contractError(cl *Clause, err error) {
@@ -199,4 +200,31 @@ func (W *World) FindFunc(ct *Contract) *ssa.Function {
 		}
 	}
 	return nil
+}
+
+// instancesOf returns the instantiations of a generic function created while building the loaded packages.
+func (W *World) instancesOf(fn *ssa.Function) []*ssa.Function {
+	if W.allFuncs == nil {
+		W.allFuncs = ssautil.AllFunctions(W.prog)
+	}
+	var out []*ssa.Function
+	for f := range W.allFuncs {
+		if f.Origin() == fn && len(f.Blocks) > 0 {
+			out = append(out, f)
+		}
+	}
+	sort.Slice(out, func(i, j int) bool { return out[i].Name() < out[j].Name() })
+	return out
+}
+
+func instSuffix(fn *ssa.Function) string {
+	if fn.Origin() == nil {
+		return ""
+	}
+	ta := fn.TypeArgs()
+	var parts []string
+	for _, t := range ta {
+		parts = append(parts, types.TypeString(t, func(p *types.Package) string { return p.Name() }))
+	}
+	return "[" + strings.Join(parts, ",") + "]"
 }
